@@ -117,7 +117,7 @@ def op_menu(sh, started):
     return m
 
 
-def run_execution(sh, ch, nops, maxdev, opset=None):
+def run_execution(sh, ch, nops, maxdev, opset=None, visit=None):
     from robotpy_ext.autonomous.stateful_autonomous import StatefulAutonomous, state, timed_state
 
     env.nt_maybe_reset(2000)
@@ -168,6 +168,8 @@ def run_execution(sh, ch, nops, maxdev, opset=None):
             raise
         except Exception as e:  # noqa
             crashed = e
+        if visit is not None:
+            visit(sh["name"], model.cur, model.fresh, str(model.exp - tm) if model.exp is not None and model.cur else None, sorted((k, str(v)) for k, v in model.dur.items()), str(model.knob))
         step = dict(op=list(op), tm=str(tm), real=[[e[0], str(e[1]), str(e[2]), e[3], str(e[4])] for e in ctx.events], model=[[e[0], str(e[1]), str(e[2]), e[3]] for e in model.events], acts=[list(a) for a in ctx.acts])
         trace.append(step)
         if crashed is not None:
@@ -213,7 +215,7 @@ def work(item):
     opset = item.get("opset")
 
     def run(ch):
-        trace, err = run_execution(sh, ch, nops, maxdev, opset)
+        trace, err = run_execution(sh, ch, nops, maxdev, opset, visit=res.visit)
         res.executions += 1
         res.checks += len(trace)
         res.transitions += len(trace)
@@ -263,7 +265,6 @@ def main(tier, seed):
     res = core.Result()
     for d in core.parallel("mc.props.c15", "work", items, seed=seed):
         res.merge(d)
-    res.states = len(shapes()) * 12
     res.bounds.update(dashboard_pass_ops=dash_n, ops=nops, deviation_bound=maxdev, shapes=[s["name"] for s in shapes()], tick="1/64 s", tm_steps=[1, 2, 3, "long"])
     rule = (
         "for each generated StatefulAutonomous subclass (chains, loops, branches, self loop, zero durations; fresh class per execution): every "
@@ -271,7 +272,7 @@ def main(tier, seed):
         "on_enable with tm continuing, on_disable, dashboard edit of a state duration, dashboard edit of a registered variable} with at most "
         "`deviation_bound` non-trivial in-state actions (next_state to any state incl. itself, done), executed on the real class and on a reference "
         "model whose periods are independent by construction (prefix-replay DFS). Compared per iteration: which state ran, tm, state_tm, initial_call, "
-        "registered variable value. A second, deeper pass (`dashboard_pass_ops` operations, passive states) restricts the alphabet to on_enable / on_iteration / "
+        "registered variable value. states = distinct reference-model states (shape, current state, fresh, time to expiry, durations, registered variable) visited. A second, deeper pass (`dashboard_pass_ops` operations, passive states) restricts the alphabet to on_enable / on_iteration / "
         "dashboard edits so that edits between several autonomous periods are covered."
     )
     return core.finish(PID, tier, seed, res, time.time() - t0, rule, ["tm values are multiples of 1/64 s passed explicitly to on_iteration (exact floats)", "on_iteration before the first on_enable is outside the alphabet (documented ValueError)"])
